@@ -712,8 +712,10 @@ class Remoter(tyming.Tymee):
     def refresh(self):
         """
         Restart tymer from current tyme so it measures time since last activity
+        Without a tymist (not wound) there is no tyme to restart from
         """
-        self.tymer.start()
+        if self.tymth:
+            self.tymer.start()
 
 
     def receive(self):
